@@ -219,7 +219,7 @@ def c07(work, tier, seed):
     scripts = []
     hosts = [["H1", ":", "PA"], ["H1", ":", "PB"], ["H1", ":", "PE"]]
 
-    def mk(schedule, ntun, idx, big=False):
+    def mk(schedule, ntun, idx, big=False, contend=None):
         token = idx % 3 != 2
         cfg = {"tokenAuth": token, "smartCard": False, "auth": "openid" if token else "ntlm", "sel": "unsigned" if token else "roundrobin", "hosts": hosts, "verifyIp": True, "idle": 0}
         tunnels = []
@@ -229,7 +229,11 @@ def c07(work, tier, seed):
             tun = {"user": user, "hostName": ["H1"], "hostPort": ["PA", "PB", "PE"][k % 3], "entry": hosts[k % 3],
                    "mintXFF": "10.0.0.%d" % (k + 1), "useXFF": "10.0.0.%d" % (k + 1)}
             tunnels.append({"transport": ["ws", "legacy"][(idx + k) % 2], "tun": tun, "steps": tunnel_steps(k, token, variant)})
-        scripts.append({"id": "m%05d" % len(scripts), "origin": "interleave:%d" % ntun, "cfg": cfg, "tunnels": tunnels, "schedule": schedule})
+        sc = {"id": "m%05d" % len(scripts), "origin": "interleave:%d" % ntun, "cfg": cfg, "tunnels": tunnels, "schedule": schedule}
+        if contend:
+            sc["contend"] = contend
+            sc["origin"] = "contend:%d" % ntun
+        scripts.append(sc)
     for i, p in enumerate(il2):
         mk(p, 2, i)
     for i, p in enumerate(il3):
@@ -240,6 +244,14 @@ def c07(work, tier, seed):
         sched = [t for t in range(n) for _ in range(7)]
         rng.shuffle(sched)
         mk(sched, n, i, big=True)
+
+    # traffic of all tunnels at the same time, some clients reading slowly (the gateway's writes to them block while the
+    # other tunnels are busy): every client must receive exactly its own host's stream and every host its own client's
+    for i in range(4 if tier == "quick" else 24):
+        n = [6, 9, 12, 16][i % 4]
+        sched = [t for t in range(n) for _ in range(7)]
+        rng.shuffle(sched)
+        mk(sched, n, i, big=True, contend={"slow": 1 + i % 2, "kib": 6144 if tier == "quick" else 12288})
 
     def owns(v):
         return True   # in a multi-tunnel run every guard is evaluated with the tunnel's own parameters: any failure is interference
